@@ -14,6 +14,9 @@ CHECKS = {
  "C09": ("Theorems (Props/C09.v): for one request and for any history, over any stream (valid, invalid, truncated, over-stuffed, descriptors on bodies or beyond the 32 limit), the descriptors of the consumed stream are a permutation of delivered ++ closed ++ still-queued; with distinct descriptors none is delivered twice or both delivered and closed. Correspondence: family be with distinct memfds identified by inode, delivered ids compared with the model and a leak count after teardown.",
          "Partial: ownership moves are hand-modelled (Model/Transport.v, Model/BeServer.v) and tied by correspondence; closing on drop (RAII) and the kernel's disposal of undelivered SCM_RIGHTS are assumed. Frontend-side receive paths and the daemon's vring setters are not yet in the ledger.",
          "Coq proof (multiset conservation by induction over the receive loop and over histories) + differential correspondence with fd-leak accounting", "DESIGN.md section 7 C09"),
+ "C08": ("Theorems (Props/C08.v) over the hand model of the receive and send loops: the receive loop returns the first `need` bytes under every segmentation; a well-formed request is dispatched identically (state, calls, replies, stream rest) under every cut of its bytes incl. byte-by-byte; end-of-stream at a boundary gives Disconnected, inside the header PartialMessage, inside the body InvalidMessage, never a dispatch; the send loop emits a prefix of the message, each byte once and in order, descriptors with the first accepted write only, for every partial-write oracle; get_sub_iovs_offset points at the continuation byte. Correspondence: family seg forces every characteristic 2-split, 3-splits, byte-by-byte and truncations on the real server through an interposed recvmsg; family iovs runs the real get_sub_iovs_offset.",
+         "Partial: the two loops are hand-modelled (Model/Transport.v) and tied by correspondence; 'never blocks' is the model's explicit end-of-stream, i.e. the kernel's 0-byte read is assumed. Frontend-side receive paths use the same Endpoint loops; their parsers are not yet in the model. Trusted base as C04.",
+         "Coq proof (induction over segmentations / partial-write oracles) + forced-segmentation correspondence", "DESIGN.md section 7 C08"),
 }
 m = {
  "version": 1,
@@ -28,7 +31,7 @@ m = {
  "engines": [{"name": "coq-proof+correspondence", "path": "check", "serves_properties": sorted(CHECKS),
               "kind_free_text": "Coq 8.16 theorems over definitions regenerated from /repo by the translator rs2v and over hand models, plus differential correspondence (real crates vs extracted model vs executable spec)"}],
  "checks": [],
- "notes": "see DESIGN.md; known_findings.json lists genuine defects (fixed: F1)",
+ "notes": "see DESIGN.md; known_findings.json lists genuine defects (fixed: F1, F4)",
  "not_applicable": [],
 }
 for pid in sorted(CHECKS):
